@@ -3,3 +3,7 @@ import NutsModel.Scalar
 import NutsModel.Gen.Numeric
 import NutsModel.Drv.Common
 import NutsModel.Drv.C07
+import NutsModel.Model.StepSizeSearch
+import NutsModel.Model.Rand
+import NutsModel.Model.Tree
+import NutsModel.Drv.C01
